@@ -55,6 +55,12 @@ func goodData() map[string]any {
 		"nm":  nilMap,
 		"sp":  []*int{gdPtr(1), nil},
 		"sn":  GDPerson{Name: "NoInner"},
+		"rows": func() []any { // distinct struct types that share one name
+			a, _ := c12RowA()
+			b, _ := c12RowB()
+			cc, _ := c12RowC()
+			return []any{a, b, cc, a}
+		}(),
 	}
 }
 
